@@ -56,6 +56,10 @@ Nodes    == 1..Len(cfg.nodes)
 Node(n)  == cfg.nodes[n]
 IsLeaf(n)== Node(n).kind = "leaf"
 IsFlow(n)== Node(n).kind = "flow"
+\* a batch node (one item, sequential) used as a step of a flow: Run hands it to runBatch
+\* (flyt.go:683-688), which does not look at the context before prep and always runs post
+IsBLeaf(n) == Node(n).kind = "bleaf"
+HasCallbacks(n) == IsLeaf(n) \/ IsBLeaf(n)
 
 (* The retry budget Run reads once after prep: GetMaxRetries if the node   *)
 (* exposes it, else 1 (flyt.go:707-713).  A Flow embeds a fresh BaseNode.  *)
@@ -68,7 +72,7 @@ Top       == Head(stack)
 Pop       == Tail(stack)
 SetTop(f) == <<f>> \o Tail(stack)
 
-RunFrame(n) == [t |-> "run", n |-> n, pc |-> "ctx0", att |-> 0, N |-> 0,
+RunFrame(n) == [t |-> "run", n |-> n, pc |-> IF Node(n).kind = "bleaf" THEN "prep" ELSE "ctx0", att |-> 0, N |-> 0,
                 pv |-> NilVal, xv |-> NilVal, xe |-> NoErr]
 FlowFrame(f) == [t |-> "flow", n |-> f, cur |-> Node(f).start, last |-> NIL, st |-> "top"]
 
@@ -102,8 +106,8 @@ EvFb(n, arg, e, o, t) == [ev |-> "fb", node |-> n, arg |-> arg.t, aid |-> TRUE,
 \* what a post callback of style sty observes of the exec result xv
 PostSees(n, xv) ==
   IF xv.k = "raw" THEN [exec |-> xv.t, eerr |-> FALSE, eerrtok |-> 0]
-  ELSE IF Node(n).func /\ Node(n).sty[3] = "r"
-       THEN [exec |-> 0, eerr |-> TRUE, eerrtok |-> xv.t]  \* Result style: IsError, Value() = nil
+  ELSE IF (Node(n).func /\ Node(n).sty[3] = "r") \/ Node(n).kind = "bleaf"
+       THEN [exec |-> 0, eerr |-> TRUE, eerrtok |-> xv.t]  \* Result style (and batch slots): IsError, Value() = nil
        ELSE [exec |-> 0, eerr |-> FALSE, eerrtok |-> 0]    \* Any style: Value() of an error result is nil
 EvPost(n, pv, xv, o, t) ==
   LET s == PostSees(n, xv) IN
@@ -185,12 +189,13 @@ Ctx0 ==
 
 \* flyt.go:696  user Prep callback of a leaf
 PrepCb(o) ==
-  /\ InRun("prep") /\ IsLeaf(Top.n) /\ WellFormedOut(o)
+  /\ InRun("prep") /\ HasCallbacks(Top.n) /\ WellFormedOut(o)
   /\ h' = Append(h, EvPrep(Top.n, o, tok))
   /\ tok' = tok + 1
   /\ ctx' = IF o.cancel THEN "done" ELSE ctx
   /\ IF o.out = "ok"
-       THEN stack' = SetTop([Top EXCEPT !.pc = "ctx1", !.pv = Raw(ValTok(o, tok))]) /\ ret' = ret
+       THEN stack' = SetTop([Top EXCEPT !.pc = IF IsBLeaf(Top.n) THEN "bitem" ELSE "ctx1", !.pv = Raw(ValTok(o, tok)),
+                                        !.N = Budget(Top.n), !.att = 0]) /\ ret' = ret
        ELSE Return(RetErr(TokErr(tok)))
   /\ UNCHANGED <<cfg, tbl, ph, ci, run>>
 
@@ -214,9 +219,19 @@ LoopTop ==
   /\ IF Top.att >= Top.N
        THEN stack' = SetTop([Top EXCEPT !.pc = "after"]) /\ ret' = ret
        ELSE IF ctx = "done"
-              THEN Return(RetErr(CtxErr))
+              THEN IF IsBLeaf(Top.n)
+                     THEN stack' = SetTop([Top EXCEPT !.pc = "post", !.xv = ERes(-1), !.xe = NoErr]) /\ ret' = ret  \* the item fails, the batch goes on to post
+                     ELSE Return(RetErr(CtxErr))
               ELSE stack' = SetTop([Top EXCEPT !.pc = IF Top.att > 0 /\ Node(Top.n).w > 0 THEN "wait" ELSE "exec"]) /\ ret' = ret
   /\ UNCHANGED <<cfg, tbl, ctx, h, ph, tok, ci, run>>
+
+\* batch node: the per-item context check of the sequential path (batch.go:233-239)
+BItemTop ==
+  /\ InRun("bitem")
+  /\ IF ctx = "done"
+       THEN stack' = SetTop([Top EXCEPT !.pc = "post", !.xv = ERes(-1), !.xe = NoErr])
+       ELSE stack' = SetTop([Top EXCEPT !.pc = "loop"])
+  /\ UNCHANGED <<cfg, tbl, ctx, ret, h, ph, tok, ci, run>>
 
 \* flyt.go:725-732  the wait between attempts elapses ...
 WaitElapsed ==
@@ -226,7 +241,9 @@ WaitElapsed ==
 \* ... or is interrupted by the context
 WaitCancelled ==
   /\ InRun("wait") /\ ctx = "done"
-  /\ Return(RetErr(CtxErr))
+  /\ IF IsBLeaf(Top.n)
+       THEN stack' = SetTop([Top EXCEPT !.pc = "post", !.xv = ERes(-1), !.xe = NoErr]) /\ ret' = ret
+       ELSE Return(RetErr(CtxErr))
   /\ UNCHANGED <<cfg, tbl, ctx, h, ph, tok, ci, run>>
 
 \* after an attempt: success leaves the loop, failure goes round again (:734-737)
@@ -236,7 +253,7 @@ AfterAttempt(f, ok, v, e) ==
 
 \* flyt.go:734  user Exec callback of a leaf, attempt att+1
 ExecCb(o) ==
-  /\ InRun("exec") /\ IsLeaf(Top.n) /\ WellFormedOut(o)
+  /\ InRun("exec") /\ HasCallbacks(Top.n) /\ WellFormedOut(o)
   /\ h' = Append(h, EvExec(Top.n, Top.att + 1, Top.pv, o, tok))
   /\ tok' = tok + 1
   /\ ctx' = IF o.cancel THEN "done" ELSE ctx
@@ -266,7 +283,11 @@ AfterLoop ==
        THEN stack' = SetTop([Top EXCEPT !.pc = "post"]) /\ ret' = ret
        ELSE IF HasFb(Top.n)
               THEN stack' = SetTop([Top EXCEPT !.pc = "fb"]) /\ ret' = ret
-              ELSE Return(RetErr(Top.xe))      \* no (or inherited default) fallback: error returned, wrapped
+              ELSE IF IsBLeaf(Top.n)
+                     THEN \* the item's error stays in its slot; post runs
+                          stack' = SetTop([Top EXCEPT !.pc = "post", !.xe = NoErr,
+                                                      !.xv = ERes(CHOOSE t \in Top.xe.toks : TRUE)]) /\ ret' = ret
+                     ELSE Return(RetErr(Top.xe))      \* no (or inherited default) fallback: error returned, wrapped
   /\ UNCHANGED <<cfg, tbl, ctx, h, ph, tok, ci, run>>
 
 \* flyt.go:743  user ExecFallback callback
@@ -282,7 +303,7 @@ FbCb(o) ==
 
 \* flyt.go:751-760  user Post callback; the empty action is normalised
 PostCb(o) ==
-  /\ InRun("post") /\ IsLeaf(Top.n)
+  /\ InRun("post") /\ HasCallbacks(Top.n)
   /\ h' = Append(h, EvPost(Top.n, Top.pv, Top.xv, o, tok))
   /\ tok' = tok + 1
   /\ ctx' = IF o.cancel THEN "done" ELSE ctx
@@ -340,7 +361,7 @@ Finish ==
   /\ UNCHANGED <<cfg, tbl, stack, tok>>
 
 Internal ==
-  \/ Ctx0 \/ PrepFlow \/ Ctx1 \/ LoopTop \/ WaitElapsed \/ WaitCancelled
+  \/ Ctx0 \/ PrepFlow \/ Ctx1 \/ LoopTop \/ BItemTop \/ WaitElapsed \/ WaitCancelled
   \/ ExecFlowEnter \/ ExecFlowReturn \/ AfterLoop \/ PostFlow \/ FlowTop \/ FlowRoute
 
 Callback ==
